@@ -206,7 +206,10 @@ def c14_5(ctx, ss):
     cfg = flow.cfg
     stores = [s for s in pf.iter_stmts(ff.node.body) if isinstance(s, ast.Assign) and any(_is_config(t) for t in s.targets)]
     if not stores:
-        raise AnchorMissing("set_config: no store to config")
+        ctx.violation("C14.5", f"{UTIL}:{C}.set_config :: after-validation", where(ff, ff.node),
+                      "set_config never installs the validated dictionary as a whole (no `DescriptorFormat.config = …` after the validation loop): "
+                      "a format can be half-applied when the second pattern is rejected")
+        return
     st = stores[-1]
     k = f"{UTIL}:{C}.set_config"
     loops = [n for n in pf.walk_no_nested(ff.node) if isinstance(n, ast.For)]
